@@ -86,7 +86,7 @@ def prop_theorems(pid):
         if fn.startswith(pid) and fn.endswith(".lean"):
             with open(os.path.join(pdir, fn)) as fh:
                 for line in fh:
-                    m = re.match(r"^theorem\s+([A-Za-z0-9_.']+)", line)
+                    m = re.match(r"^theorem\s+([^\s({\[:]+)", line)
                     if m:
                         names.append(m.group(1))
     return names
